@@ -4,6 +4,7 @@
 From A1 Require Import Per.Prim Per.Proofs.
 From A1 Require Props.C10 Props.C11.
 From A1 Require Der.Prim Der.TotalProofs.
+From A1 Require Import Uper.Spec Uper.TotalProofs.
 Local Open Scope N_scope.
 
 (** L0: the bit copy under every read never panics when positions do not overflow *)
@@ -63,6 +64,129 @@ Theorem C04_der_total : forall inp,
   (forall n tag, is_panic (A1.Der.Prim.r_enumerated n tag inp) = false).
 Proof. exact A1.Der.TotalProofs.der_total. Qed.
 
+(** * L2: the UPER reader [read_ty] (model of `impl Reader for UperReader`) is total.
+
+   Vocabulary (Uper/TotalProofs.v):
+     [src_inv s]    the source invariant: the unread bits are the suffix of the slice at the cursor
+                    ([s_rest s = skipn (s_pos s) (s_all s)]), [s_pos s <= s_len s], and the declared bit
+                    length is below 2^63 (a bit count of a Rust slice);
+     [same_src s s'] same slice, same slice length, same declared length;
+     [Known_C04 t]  the type contains, anywhere, a member of a listed finding family:
+        (F04-1) [Known_C04_size lo hi]: a size constraint of a restricted string (not UTF8String, whose reader
+                ignores it) / OCTET STRING / BIT STRING / SEQUENCE OF with a lower bound and no upper bound, or an
+                upper bound of 64K or more: the 63/17..-bit count read from the input is allocated as it comes
+                (SEQUENCE OF: `Vec::with_capacity(len)`);
+        (F04-3) [Known_C04_bits_unconstrained lo hi ext]: a BIT STRING whose length can arrive in the
+                unconstrained form (no bounds at all, or an extension marker): the fragment loop of
+                read_bitstring underflows for 16384 bits or more.
+   Every panic class of the model is covered: P_ARITH (unchecked arithmetic, dev profile), P_CAPACITY /
+   P_UNBOUNDED (allocation or loop sized by the input), P_UNWRAP (read_opt / read_default), P_ASSERT (the
+   `debug_assert!(scope.exhausted())` of scope_pushed, dev profile), P_OTHER (states the model calls unreachable). *)
+Theorem C04_uper_total : forall m t s, wf_ty t -> ~ Known_C04 t -> src_inv s ->
+  match read_ty m t (r_of_src s) with
+  | Ok (_, r') => s_pos (r_src r') <= s_len s /\ src_inv (r_src r') /\ s_len (r_src r') = s_len s
+  | Err _ => True
+  | Panic _ => False
+  end.
+Proof. exact uper_total. Qed.
+
+(* every byte string, every declared bit length below 2^63, both cargo profiles *)
+Theorem C04_uper_total_bytes : forall m t bytes len, wf_ty t -> ~ Known_C04 t -> len < two63 ->
+  is_panic (read_ty m t (r_of_src (src_of_bytes bytes len))) = false.
+Proof. exact uper_total_bytes. Qed.
+
+Theorem C04_src_of_bytes_inv : forall bytes len, len < two63 -> src_inv (src_of_bytes bytes len).
+Proof. exact src_of_bytes_inv. Qed.
+
+(* the remaining-bit count does not underflow: before the read, and in the state after every successful
+   read; a failed read (Err) returns no state in the model -- the caller keeps the state it passed in, which
+   is within the invariant -- and every intermediate state of every primitive keeps [s_pos <= s_len]
+   ([C04_pos_le_len_preserved]) *)
+Theorem C04_remaining_callable : forall m t s, wf_ty t -> ~ Known_C04 t -> src_inv s ->
+  src_remaining m s = Ok (s_len s - s_pos s) /\
+  forall v r', read_ty m t (r_of_src s) = Ok (v, r') ->
+    src_remaining m (r_src r') = Ok (s_len s - s_pos (r_src r')).
+Proof. exact remaining_callable. Qed.
+
+Theorem C04_remaining_in_invariant : forall m s, src_inv s -> src_remaining m s = Ok (s_len s - s_pos s).
+Proof. exact remaining_ok. Qed.
+
+(* [pos_le_len f]: on success from a source in the invariant the output source is in the invariant,
+   with the cursor within the (unchanged) declared length *)
+Theorem C04_pos_le_len_preserved : forall m,
+  pos_le_len r_bit /\
+  (forall d o n, pos_le_len (fun s => r_bits_into s d o n)) /\
+  (forall p, pos_le_len (fun s => Ok (tt, src_set_pos s p))) /\
+  (forall lb ub, pos_le_len (r_nnbi m lb ub)) /\
+  (forall lb ub, pos_le_len (r_length_determinant m lb ub)) /\
+  (forall k, pos_le_len (r_2s_compliment k)) /\
+  (forall lb ub, pos_le_len (r_constrained m lb ub)) /\
+  pos_le_len (r_normally_small m) /\
+  pos_le_len (r_unconstrained m) /\
+  (forall std ext, pos_le_len (r_enumeration_index m std ext)) /\
+  (forall lb ub ext, pos_le_len (r_octetstring m lb ub ext)) /\
+  (forall lb u, pos_le_len (r_bitstring m lb (Some u) false)).
+Proof. exact pos_le_len_preserved. Qed.
+
+(* the entry call of a component in any scope of a field walk never panics, never answers None to an
+   OPTIONAL/DEFAULT component (no unwrap of None), and leaves a state within the invariant even when it
+   reports an error (SEQUENCE drops that error) *)
+Theorem C04_entry_total : forall m r sc (o e : bool) n k,
+  src_inv (r_src r) -> r_scope r = Some sc -> winv e sc (n + 1) (k + (if o then 1 else 0)) ->
+  entry_post e n k o (r_src r) (read_bit_field_entry_st m r o).
+Proof. exact entry_good. Qed.
+
+(** the excluded classes contain panics: F04-1 *)
+Theorem C04_refuted_size_octets :
+  let t := TOctets (Some 1) None false in
+  wf_ty t /\ Known_C04 t /\ run_bytes release_mode t [255; 255; 255; 255; 255; 255; 255; 255] = Panic P_CAPACITY.
+Proof. exact refuted_size_octets. Qed.
+Theorem C04_refuted_size_string :
+  let t := TStr Ia5 (Some 1) None false in
+  wf_ty t /\ Known_C04 t /\ run_bytes release_mode t [255; 255; 255; 255; 255; 255; 255; 255] = Panic P_CAPACITY.
+Proof. exact refuted_size_string. Qed.
+Theorem C04_refuted_size_bitstring :
+  let t := TBitStr (Some 1) None false in
+  wf_ty t /\ Known_C04 t /\ run_bytes release_mode t [255; 255; 255; 255; 255; 255; 255; 255] = Panic P_UNBOUNDED.
+Proof. exact refuted_size_bitstring. Qed.
+Theorem C04_refuted_size_sequence_of :
+  let t := TListOf TBool (Some 1) None false in
+  wf_ty t /\ Known_C04 t /\ run_bytes release_mode t [255; 255; 255; 255; 255; 255; 255; 255] = Panic P_CAPACITY.
+Proof. exact refuted_size_sequence_of. Qed.
+Theorem C04_refuted_size_large_upper :
+  let t := TOctets None (Some 1099511627776) false in
+  wf_ty t /\ Known_C04 t /\ run_bytes release_mode t [255; 255; 255; 255; 255; 255; 255; 255] = Panic P_UNBOUNDED.
+Proof. exact refuted_size_large_upper. Qed.
+
+(** F04-3 *)
+Theorem C04_refuted_bitstring_unconstrained :
+  let t := TBitStr None None false in
+  let bytes := [193] ++ repeat 0 2048 ++ [1; 128] in
+  wf_ty t /\ Known_C04 t /\ run_bytes dev_mode t bytes = Panic P_ARITH /\ is_panic (run_bytes release_mode t bytes) = true.
+Proof. exact refuted_bitstring_unconstrained. Qed.
+Theorem C04_refuted_bitstring_extensible :
+  let t := TBitStr (Some 1) (Some 8) true in
+  let bytes := [224; 128] ++ repeat 0 2048 ++ [192; 0] in
+  wf_ty t /\ Known_C04 t /\ run_bytes dev_mode t bytes = Panic P_ARITH.
+Proof. exact refuted_bitstring_extensible. Qed.
+
+(* repaired: an extension-addition count of 2^64 (extension bit, normally small number FF..FF of 8 octets)
+   no longer overflows `+ 1` in Scope::read_from_field *)
+Theorem C04_ext_count_overflow_is_error : forall m,
+  is_panic (run_bytes m (TSeq [(FReq, TBool); (FReq, TBool)] 0 2 (Some 0))
+              [225; 31; 255; 255; 255; 255; 255; 255; 255; 224; 0]) = false.
+Proof. exact ext_count_overflow_is_error. Qed.
+
+(** non-vacuity: an extensible SEQUENCE with two known additions read from an encoding with three *)
+Example C04_nonvacuous :
+  wf_ty ex4_ty /\ ~ Known_C04 ex4_ty /\
+  (forall m, exists r',
+     read_ty m ex4_ty (r_of_src (src_of_bytes ex4_bytes 77)) =
+       Ok (VSeq [Some (VBool true); Some (VInt 5); Some (VOctets [170]); Some (VList [VChoice 0 (VBool true)])], r')
+     /\ s_pos (r_src r') = 77) /\
+  (forall m, read_ty m ex4_ty (r_of_src (src_of_bytes ex4_bytes 76)) = Err E_END_OF_STREAM).
+Proof. exact nonvacuous_c04. Qed.
+
 Print Assumptions C04_bit_copy_no_panic.
 Print Assumptions C04_per_readers_no_panic.
 Print Assumptions C04_octetstring_reader_no_panic.
@@ -70,3 +194,19 @@ Print Assumptions C04_refuted_untrusted_length_alloc.
 Print Assumptions C04_read_bit_within_len.
 Print Assumptions C04_read_bits_within_len.
 Print Assumptions C04_der_total.
+Print Assumptions C04_uper_total.
+Print Assumptions C04_uper_total_bytes.
+Print Assumptions C04_src_of_bytes_inv.
+Print Assumptions C04_remaining_callable.
+Print Assumptions C04_remaining_in_invariant.
+Print Assumptions C04_pos_le_len_preserved.
+Print Assumptions C04_entry_total.
+Print Assumptions C04_refuted_size_octets.
+Print Assumptions C04_refuted_size_string.
+Print Assumptions C04_refuted_size_bitstring.
+Print Assumptions C04_refuted_size_sequence_of.
+Print Assumptions C04_refuted_size_large_upper.
+Print Assumptions C04_refuted_bitstring_unconstrained.
+Print Assumptions C04_refuted_bitstring_extensible.
+Print Assumptions C04_ext_count_overflow_is_error.
+Print Assumptions C04_nonvacuous.
